@@ -11,7 +11,9 @@ import (
 	"os/exec"
 	"path/filepath"
 	"regexp"
+	"runtime/debug"
 	"strings"
+	"syscall"
 	"testing"
 	"time"
 
@@ -351,7 +353,9 @@ func c06Run(t *testing.T, sc Scenario, res *Result) {
 // C17
 
 var c17Kinds = []string{"empty", "random-bytes", "directory", "dangling-symlink", "other-version", "missing-hash", "extra-hash", "bad-seed", "huge-seed",
-	"bad-word", "huge-word", "truncated", "bitflip", "now-passes", "overrun", "only-comments", "skips-now", "one-char-word", "negative-word", "spaces"}
+	"bad-word", "huge-word", "truncated", "bitflip", "now-passes", "overrun", "only-comments", "skips-now", "one-char-word", "negative-word", "spaces",
+	// a hand-edited file: the captured output (the leading '#' lines) was stripped, or a blank line comes first
+	"now-passes-no-comments", "overrun-no-comments", "now-passes-blank-first"}
 
 func c17Scenarios(cfg runCfg) []Scenario {
 	var out []Scenario
@@ -374,7 +378,47 @@ func c17Scenarios(cfg runCfg) []Scenario {
 	if cfg.shard%8 == 3 {
 		out = append(out, Scenario{Family: "slow-stale-file", Seed: mix(cfg.seed, 17, 99, uint64(cfg.shard))})
 	}
+	if cfg.shard == 7 {
+		out = append(out, Scenario{Family: "many-empty-files", Seed: mix(cfg.seed, 17, 98)})
+	}
 	return out
+}
+
+// TestManyEmptyFilesChild only runs in the child process started by the C17 "many-empty-files" family: 400 empty
+// fail files and one usable, still failing one, in a process that may have 128 files open and does not collect garbage.
+func TestManyEmptyFilesChild(t *testing.T) {
+	if os.Getenv("C17_MANY_EMPTY") == "" {
+		t.Skip("not a C17 child")
+	}
+	defer os.RemoveAll("testdata")
+	saved := map[string]string{}
+	flag.VisitAll(func(f *flag.Flag) {
+		if strings.HasPrefix(f.Name, "rapid.") {
+			saved[f.Name] = f.Value.String()
+		}
+	})
+	ver := rapidVersion()
+	for k, v := range saved {
+		_ = flag.Set(k, v)
+	}
+	for i := 0; i < 400; i++ {
+		p := writeFailFile(t.Name(), fmt.Sprintf("20200101%06d-%d", i, i), ver, 1, nil, "")
+		_ = os.WriteFile(p, nil, 0o644)
+	}
+	writeFailFile(t.Name(), "20260101000000-1", ver, 1, []uint64{7, 7, 7, 7}, "still fails")
+	lim := syscall.Rlimit{Cur: 128, Max: 128}
+	if err := syscall.Setrlimit(syscall.RLIMIT_NOFILE, &lim); err != nil {
+		fmt.Println("MANY-EMPTY-CHILD-NO-RLIMIT", err)
+		return
+	}
+	debug.SetGCPercent(-1)
+	fmt.Println("MANY-EMPTY-CHILD-RAN")
+	rapid.Check(t, func(rt *rapid.T) {
+		rapid.Uint8().Draw(rt, "v")
+		if rapid.VerifStreamOf(rt).Kind == "buffer" {
+			rt.Fatalf("the saved test case still fails")
+		}
+	})
 }
 
 // TestStaleSlowChild only runs in the child processes started by the C17 "slow-stale-file" family: with
@@ -419,6 +463,26 @@ func TestStaleSlowChild(t *testing.T) {
 func c17Run(t *testing.T, sc Scenario, res *Result) {
 	defer os.RemoveAll("testdata")
 	os.RemoveAll("testdata")
+	if sc.Family == "many-empty-files" {
+		self, _ := os.Executable()
+		cmd := exec.Command(self, "-test.run", "^TestManyEmptyFilesChild$", "-test.timeout", "120s", "-test.v", "-rapid.checks", "20", "-rapid.nofailfile")
+		cmd.Env = append(os.Environ(), "C17_MANY_EMPTY=1")
+		out, _ := cmd.CombinedOutput()
+		text := string(out)
+		res.inc("checks_run")
+		res.nontrivial("many-empty-files")
+		switch {
+		case !strings.Contains(text, "MANY-EMPTY-CHILD-RAN") || strings.Contains(text, "test timed out"):
+			res.inconclusive("many-empty-files child did not run: " + clip(text, 300))
+		case strings.Count(text, "ignoring fail file") != 400:
+			res.violate(sc, "c17/many-empty-log", fmt.Sprintf("400 empty fail files but %d 'ignoring fail file' log lines: %s", strings.Count(text, "ignoring fail file"), clip(text[len(text)*2/3:], 400)), nil)
+		case !strings.Contains(text, "failed after 0 tests: the saved test case still fails"):
+			res.violate(sc, "c17/many-empty-verdict", "with 400 empty fail files in front of it (and 128 file descriptors), the usable fail file was not replayed: "+clip(text[len(text)*2/3:], 500), nil)
+		default:
+			res.inc("many_empty_files_children")
+		}
+		return
+	}
 	if sc.Family == "slow-stale-file" {
 		self, _ := os.Executable()
 		seed := fmt.Sprint(sc.Seed%1000003 + 1)
@@ -690,6 +754,12 @@ func c17Run(t *testing.T, sc Scenario, res *Result) {
 			content[i] ^= 1 << uint(r.intn(8))
 		case "only-comments":
 			content = []byte("# nothing\n# here\n")
+		case "now-passes-no-comments":
+			content = []byte(strings.Join(lines[hdr:], "\n"))
+		case "overrun-no-comments":
+			content = []byte(lines[hdr])
+		case "now-passes-blank-first":
+			content = []byte("\n" + strings.Join(lines[hdr:], "\n") + "\n")
 		case "now-passes":
 			// the genuine file: with the higher threshold its test case passes (or, with extra draws, overruns)
 		case "overrun":
